@@ -69,4 +69,12 @@ CHECKS = {
         text="Every configuration of the alphabet is simulated, written, read back and reloaded; every column is compared bit for bit, every header value and every flattened configuration key against what a FITS card can carry, and every field config_from_fits reconstructs (observed, not assumed) against the original.",
         note="finite/ASCII/card-sized values only (the property's restriction); astropy's FITS card formatting defines what a float header value can carry",
     ),
+    "C02": dict(
+        engine="E1-lattice",
+        level="exploration",
+        design_ref="DESIGN.md §3 C02",
+        technique="bounded exhaustive enumeration of the CLOSED unit hypercube (per-dimension alphabet with 0, denormal, 2^-53, 1-2^-53, 1 and an interior grid; 10^4 / 16^4 points) x detector altitude x detector position (poles, date line) x cone/limb/azimuth settings x along-trajectory distances, plus points bisected onto the two thresholds of the validity mask; explicit-vector reference model",
+        text="Every lattice point is thrown through RegionGeom.throw and judged against explicit vectors: path-length range and inverse-CDF residual, spot on the sphere at that distance, lat/long ranges, emergence angle from d.n, kept <=> upward and below 42 deg (either-side band at the cuts), non-finite rows never kept, and the ground offset of positions along the trajectory.",
+        note="spherical Earth R=6378.1 km; conditioning-aware tolerances (eps*R/sin(theta_S)) for quantities reconstructed from reported lat/long; nothing is claimed between lattice points",
+    ),
 }
